@@ -37,7 +37,7 @@ func c10Gen(g *Gen) []Case {
 			cs = append(cs, Case{K: "slots", A: []int{y, 1900}})
 		}
 	}
-	for _, b := range []int{1, 1000, 1800, 1950, 2000} {
+	for _, b := range []int{1, 1000, 1200, 1500, 1800, 1950, 2000} {
 		ys := []int{b, b + 1, b + 59, b + 60, b + 61, now}
 		if !g.Quick {
 			for i := 0; i < 20; i++ {
@@ -49,6 +49,11 @@ func c10Gen(g *Gen) []Case {
 				cs = append(cs, Case{K: "jie", A: []int{y, b}})
 			}
 		}
+	}
+	// for every non-default base year B: the Lichun year one cycle after B-1 has the same year pillar as B-1; its winter
+	// months are walked day by day so that any candidate of B-1 that slips past the base-year filter is seen
+	for _, b := range []int{1000, 1200, 1500, 1800, 1950} {
+		cs = append(cs, Case{K: "basewalk", A: []int{b}})
 	}
 	n := 30
 	if !g.Quick {
@@ -188,6 +193,24 @@ func c10Run(w *W, c Case) {
 					continue
 				}
 				c10Lookup(w, ref.FromSecs(t), base, "slot-walk-moments")
+			}
+		}
+	case "basewalk":
+		base := c.A[0]
+		w.Class(fmt.Sprintf("basewalk/base%d", base))
+		y := base - 1 + 60
+		for y+60 <= c10Now && w.Rng.Intn(3) == 0 {
+			y += 60
+		}
+		lo := ref.JDN(y, 12, 1)
+		for j := lo; j < lo+75; j++ {
+			cy, cm, cd := ref.FromJDN(j)
+			if cy > c10Now {
+				break
+			}
+			c10Lookup(w, ref.Stamp{Y: cy, M: cm, D: cd, H: 12, Mi: j % 60}, base, "base-year-walk-moments")
+			if j%6 == 0 {
+				c10Lookup(w, ref.Stamp{Y: cy, M: cm, D: cd, H: 23, Mi: 30}, base, "base-year-walk-moments")
 			}
 		}
 	case "rand":
